@@ -199,6 +199,13 @@ impl Store {
         })
     }
 
+    /// Mark the store as poisoned: an operation belonging to a commit failed part-way.
+    pub fn poison(&self) {
+        self.shared
+            .poisoned
+            .store(true, std::sync::atomic::Ordering::Relaxed);
+    }
+
     pub fn is_poisoned(&self) -> bool {
         self.shared
             .poisoned
